@@ -115,10 +115,10 @@ structure IsF64Val (r : Rat) : Prop where
   den : ∃ j, r.den = 2 ^ j
   fix : roundF64 r = some r
 
-theorem roundF64_zero' : roundF64 0 = some 0 := by
+theorem roundF64_of_zero : roundF64 0 = some 0 := by
   unfold roundF64 roundFloat; rfl
 
-theorem isF64Val_zero : IsF64Val 0 := ⟨Rat.le_refl, ⟨0, rfl⟩, roundF64_zero'⟩
+theorem isF64Val_zero : IsF64Val 0 := ⟨Rat.le_refl, ⟨0, rfl⟩, roundF64_of_zero⟩
 
 /-- **rounding is a projection onto the dyadic rationals of the format** -/
 theorem isF64Val_of_round (q r : Rat) (hq : 0 ≤ q) (h : roundF64 q = some r) : IsF64Val r := by
@@ -130,7 +130,7 @@ theorem isF64Val_of_round (q r : Rat) (hq : 0 ≤ q) (h : roundF64 q = some r) :
         exact Rat.mul_nonneg (Rat.intCast_nonneg.2 (Int.le_of_lt rep.mpos)) (Rat.le_of_lt (pow2_pos e))
       · rw [rep.eq]; exact den_int_mul_pow2 m e
   · subst h0
-    rw [roundF64_zero'] at h
+    rw [roundF64_of_zero] at h
     cases h
     exact isF64Val_zero
 
